@@ -13,6 +13,10 @@ for d in sorted(glob.glob(os.path.join(VERIF, "seeded", "*"))):
     c = m.get("confirmed", {})
     conf = "suite passes, demo fails with / passes without" if (c.get("suite_passes_with_change") and c.get("demo_exit_with_change") not in (0, None) and c.get("demo_exit_without_change") == 0) else "see meta.json"
     checks = ", ".join("%s:%s" % (p, {0: "miss", 1: "CAUGHT"}.get(v["exit"], "tool-error")) for p, v in m.get("checks", {}).items())
+    early = m.get("earlier_runs") or []
+    missed_first = sorted({p for run in early for p, c in run.items() if c["exit"] == 0 and m.get("checks", {}).get(p, {}).get("exit") == 1})
+    if missed_first:
+        checks += " (missed at first: %s)" % ", ".join(missed_first)
     first = ""
     for p, v in m.get("checks", {}).items():
         if v["exit"] == 1 and v.get("first"):
